@@ -264,12 +264,15 @@ void h_mgl_sib(void)
 	__CPROVER_assume(n < VG_NN && x < VG_NN && c < VG_NN);
 	__CPROVER_assume(VG_SIB1(n));
 	l = VG_LD(VG_G(n));
+	__CPROVER_assume(VG_SIB2(l, n) && VG_SIB2(n, l));           /* same group <=> same frequency, for the node and its leader */
 	__CPROVER_assume(VG_KID(x) && VG_KID(n) && VG_KID(l));
 	nx_leaf = VG_ND(x).leaf; nx_child = VG_ND(x).child_index; nx_freq = VG_F(x); nx_group = VG_G(x);
 	nn_leaf = VG_ND(n).leaf; nn_child = VG_ND(n).child_index; nl_leaf = VG_ND(l).leaf; nl_child = VG_ND(l).child_index;
 	ld = VG_LD(c);
 	r = make_group_leader(&vg_dec, n);
 	__CPROVER_assert(r == l, "C02 make_group_leader: returns the recorded leader of the node's group");
+	__CPROVER_assert(r < VG_NN && VG_LD(VG_G(r)) == r && VG_G(r) == VG_G(n) && VG_F(r) == VG_F(n),
+	                 "C02/C09 make_group_leader: the node returned IS the recorded leader of its own group (hypothesis S5 of the DFCC groups, here derived from the sibling property)");
 	__CPROVER_assert(VG_F(x) == nx_freq && VG_G(x) == nx_group && VG_LD(c) == ld, "C02 make_group_leader: frequencies, groups and leaders are untouched");
 	__CPROVER_assert((x == n || x == l) || (VG_ND(x).leaf == nx_leaf && VG_ND(x).child_index == nx_child),
 	                 "C02 make_group_leader: nodes other than the two exchanged keep their subtree");
